@@ -893,6 +893,19 @@ fn ext_valid(schema: &Value, root: &Value, v: &Value, depth: usize) -> Option<bo
                     }
                 }
                 "x" => s.contains('x'),
+                // JSON Schema (ECMA) semantics: \\d and \\w are ASCII classes
+                "^\\d{2,3}$" => (2..=3).contains(&s.len()) && s.bytes().all(|c| c.is_ascii_digit()),
+                "^\\w+$" => !s.is_empty() && s.bytes().all(|c| c.is_ascii_alphanumeric() || c == b'_'),
+                "^a\\/b$" | "^a/b$" => s == "a/b",
+                "^\\D$" => s.chars().count() == 1 && !s.as_bytes()[0].is_ascii_digit(),
+                "^\\d+\\.\\d$" => {
+                    let b = s.as_bytes();
+                    b.len() >= 3 && b[b.len() - 2] == b'.' && b[b.len() - 1].is_ascii_digit() && b[..b.len() - 2].iter().all(|c| c.is_ascii_digit())
+                }
+                "^\\W\\w$" => {
+                    let cs: Vec<char> = s.chars().collect();
+                    cs.len() == 2 && !(cs[0].is_ascii_alphanumeric() || cs[0] == '_') && (cs[1].is_ascii_alphanumeric() || cs[1] == '_')
+                }
                 _ => return None,
             };
             if !ok {
@@ -983,7 +996,8 @@ fn gen_ext(rng: &mut Rng, depth: usize) -> Value {
             }
             2 => json!({"enum": ["red", "green", 3, null, [1, 2], {"a": 1}]}),
             3 => json!({"type": "string", "format": *rng.pick(&["date", "uuid", "ipv4"])}),
-            4 => json!({"type": "string", "pattern": *rng.pick(&["^[a-c]+$", "^(ab|c)*$"]), "maxLength": rng.range(2, 6)}),
+            4 if rng.chance(1, 2) => json!({"type": "string", "pattern": *rng.pick(&["^[a-c]+$", "^(ab|c)*$"]), "maxLength": rng.range(2, 6)}),
+            4 => json!({"type": "string", "pattern": *rng.pick(&["^\\d{2,3}$", "^\\w+$", "^a\\/b$", "^a/b$", "^\\D$", "^\\d+\\.\\d$", "^\\W\\w$"]), "maxLength": rng.range(3, 6)}),
             5 => json!({"type": ["integer", "null"], "minimum": 0}),
             6 => json!({"allOf": [{"type": "integer", "minimum": -5}, {"maximum": 20}, {"multipleOf": rng.range(2, 4)}]}),
             7 => json!({"type": "string", "minLength": rng.below(3), "maxLength": rng.range(3, 6)}),
@@ -1161,7 +1175,13 @@ fn gen_pair(rng: &mut Rng, depth: usize) -> (Value, Value) {
                 let s: String = (0..n).map(|_| *rng.pick(&['a', 'é', '"', '\\', '\n', 'z', ' ', '😀'])).collect();
                 (json!({"type": "string", "minLength": n.saturating_sub(1), "maxLength": n + 1}), json!(s))
             }
-            5 => (json!({"type": ["integer", "null", "string"]}), rng.pick(&[json!(7), json!(null), json!("x")]).clone()),
+            5 if rng.chance(1, 2) => (json!({"type": ["integer", "null", "string"]}), rng.pick(&[json!(7), json!(null), json!("x")]).clone()),
+            5 => {
+                // patterns with escape classes (ASCII under JSON Schema semantics) and an escaped slash
+                let (p, v) = *rng.pick(&[("^\\d{2,3}$", "042"), ("^\\d{2,3}$", "99"), ("^\\w+$", "a_9Z"), ("^\\w+$", "_"), ("^a\\/b$", "a/b"), ("^a/b$", "a/b"),
+                                         ("^\\D$", "é"), ("^\\D$", "x"), ("^\\d+\\.\\d$", "10.5"), ("^\\W\\w$", "-a"), ("^\\W\\w$", "é_")]);
+                (json!({"type": "string", "pattern": p}), json!(v))
+            }
             6 if rng.chance(1, 2) => {
                 // string constants under length bounds: lengths count characters, not bytes
                 let words = ["abc", "日本語", "né", "°C", "√", "ok", "x", "😀!", "日本"];
